@@ -9,7 +9,7 @@ from common import *
 
 # rule category -> property.  EXACT / PANIC / FAIL belong to the property whose scenario family is running;
 # in a restarted run (run > 1) they belong to C05.
-CAT_PROP = {"C13": "C13", "W1": "C13", "FETCH": "C06", "LOST": "C03", "CRASH": "C05"}
+CAT_PROP = {"C13": "C13", "W1": "C13", "FETCH": "C06", "LOST": "C03", "CRASH": "C05", "RUN": "C07"}
 
 
 def prop_of(v, family_prop):
@@ -262,6 +262,36 @@ def run_clone_check(prop, tier):
                        "the output scan is given to the L1 code as the scenario's scan set (D4); at L2 the real bita process scans real files built from natural chunks (D7) and what its chunker finds is computed with bita's own chunker",
                        "L2 block devices are regular files behind hook H1"]
     out.finish()
+
+
+def run_l1_runs(tier, out, workdir):
+    """C07 at the boundary where the clone hands its chunk list to the reader (Archive::chunk_stream -> ArchiveReader::read_chunks): the scenarios
+    of the mixed and seeds families (sources with repeated chunks, seeds that leave every subset missing) on the real code, judged by CloneTrace.tla's
+    RUN rule (the list must yield the maximal runs of adjacent missing chunks in archive order, Reader.tla MaximalRuns)."""
+    total = 0
+    tv = {"events": 0, "scenarios_ok": 0, "verdicts": 0, "states": 0}
+    counts = {}
+    for fam in ("mixed", "seeds"):
+        variant = {"unit": 4, "comp": "none", "mode": "plain", "every": 3 if tier == "quick" else 1}
+        scen, nscen, runs, traces = replay_family(fam, tier, variant, workdir)
+        total += runs
+        verdicts, summary = tlc_validate("CloneTrace", "CloneTrace.cfg", traces)
+        for k in tv:
+            tv[k] += summary[k]
+        log("family %s (chunk lists handed to the reader): %d runs, %d events validated, %d ok, %d verdicts" % (fam, runs, summary["events"], summary["scenarios_ok"], summary["verdicts"]))
+        for v in verdicts:
+            p = prop_of(v, FAMILIES[fam]["owner"])
+            if p == "HARNESS":
+                raise ToolError("harness/model out of sync: %s (trace %s line %d)" % (v["rule"], v["trace"], v["line"]))
+            counts[p + " " + v["rule"]] = counts.get(p + " " + v["rule"], 0) + 1
+            if p != "C07":
+                continue
+            evs = slice_at_line(v["trace"], v["line"])
+            sc = evs[0] if evs else {}
+            out.violation("%s|%s" % (v["rule"], fam), "C07 %s (family %s, scenario %s: src=%s prior=%s seeds=%s)" % (v["rule"], fam, v["scenario"], sc.get("src"), sc.get("prior"), sc.get("seeds")),
+                          {"kind": "clone_l1", "family": fam, "variant": variant, "scenario": {k: sc[k] for k in sc if k not in ("ev", "arch", "hdr")},
+                           "verdict": {k: v[k] for k in ("rule", "scenario", "line", "run")}, "events": evs[:200]})
+    return total, tv, counts
 
 
 def replay_clone(path):
